@@ -204,6 +204,14 @@ pub fn run(case_name: &str, ctx: &mut Ctx, one: Option<&str>, rng: &mut Rng, bud
         let len = (g << lc) * 4 + 1000;
         let v = vec![len, len, 1_000_000 + g, par + (lc << 20) + (e << 24)]; let s = fmt_list(&v); ctx.trial(&s, false, || case(&v));
     } } }
+    // counts that are exact multiples of the inventory quantum (2^12 with the default parameters, 2^10 / 2^11) with no or a ragged tail,
+    // at gaps that put the full last entry in the 16-bit (g <= 16) and in the 32-bit class (g >= 17): the last entry then needs as much
+    // spill as any other one (parity 1: the same for zeros)
+    for g in [1u64, 3, 16, 17, 20, 40, 300] { for c in [1024u64, 2048, 4096, 8192] { for tail in [0u64, g - 1] { for par in [0u64, 1] {
+        let len = (c - 1) * g + 1 + tail;
+        if len > 2_500_000 { continue; }
+        let v = vec![len, len + 130 * par, 1_000_000 + g, par]; let s = fmt_list(&v); ctx.trial(&s, false, || case(&v));
+    } } } }
     for _ in 0..budget / 4 {
         let g = [1u64, 2, 8, 16, 64, 128, 256, 512][rng.below(8) as usize] * [1, 1, 1, 2, 4][rng.below(5) as usize];
         let len = (g * (600 + rng.below(1500))).min(900_000);
